@@ -188,16 +188,26 @@ def run(ck):
                        what=f'{fname} on {scanex.show(w)!r}: {what} (code verdict {rc} at {at}; statement verdict {src})')
         ck.sample({'rule': rid, 'symbols': len(symbols), 'configurations': cfg, 'transitions': tr})
     # is_ipaddr dispatch
-    import cfgpaths
+    import cfgpaths, re
     r = ck.rule('R5.8', 'is_ipaddr dispatches on the presence of ":" to is_ipv6, else is_ipv4, with its own (start, end) and returns the result unchanged', 1)
     eng, paths = cfgpaths.summarise(tu, 'is_ipaddr')
     why = []
+    seen = set()
     for p in paths:
         sc = [c for c in p.calls() if c[1] in ('strchr', 'memchr') and c[2][:2] == ('start', "':'")]
-        if len(sc) != 1: why.append('no colon search on start'); continue
+        if len(sc) != 1:
+            # a guard that rejects null pointers before anything is read is not part of the dispatch
+            nullguard = any(e[0] == 'cond' and re.fullmatch(r'\(?!?(start|end)( == NULL)?\)?', e[1]) and (e[2] if '==' in e[1] or e[1].startswith('!') or e[1].startswith('(!') else not e[2]) for e in p.events)
+            if nullguard and str(p.ret()[1]) in ('0', 'NO') and not [c for c in p.calls() if c[1] in ('is_ipv4', 'is_ipv6')]: continue
+            why.append('no colon search on start'); continue
         v = [c for c in p.calls() if c[1] in ('is_ipv4', 'is_ipv6')]
-        want = 'is_ipv6' if p.passed(sc[0][3], True) else 'is_ipv4'
+        s0 = sc[0][3]
+        found = p.passed(s0, True) or p.passed(f'({s0} != NULL)', True) or p.passed(f'({s0} == NULL)', False)
+        absent = p.passed(s0, False) or p.passed(f'({s0} != NULL)', False) or p.passed(f'({s0} == NULL)', True)
+        if found == absent: why.append('the result of the colon search is not tested'); continue
+        want = 'is_ipv6' if found else 'is_ipv4'; seen.add(want)
         if len(v) != 1 or v[0][1] != want or v[0][2] != ('start', 'end') or p.ret()[1] != v[0][3]: why.append(f'colon {"found" if want == "is_ipv6" else "absent"}: calls {[c[1:3] for c in v]}, returns {p.ret()[1]}')
-    r.instance('src/is_ipv4_ipv6.c:is_ipaddr', ok=not why and len(paths) == 2, wclass='dispatch', what='; '.join(why))
+    if seen != {'is_ipv4', 'is_ipv6'} and not why: why.append(f'dispatch reaches only {sorted(seen)}')
+    r.instance('src/is_ipv4_ipv6.c:is_ipaddr', ok=not why, wclass='dispatch', what='; '.join(why))
     ck.assume('literals are validated in the bracket context (the range ends at "]", which every strspn set excludes); direct API calls on other ranges are not covered')
     ck.assume('quads with a zero first octet may be accepted or rejected (the statement bounds them from neither side)')
